@@ -1,2 +1,10 @@
 import BklProofs.C19
-#print axioms Bkl.C19_placeholder
+#print axioms Bkl.run_append
+#print axioms Bkl.run_obs_length
+#print axioms Bkl.C19_output_pure
+#print axioms Bkl.C19_output_pure_dead
+#print axioms Bkl.C19_output_repeatable
+#print axioms Bkl.C19_state_depends_on_merges_only
+#print axioms Bkl.C19_documents_are_merged_trees
+#print axioms Bkl.C19_documents_after_outputs
+#print axioms Bkl.C19_merge_after_output
